@@ -145,13 +145,43 @@ def to_tuple(x):
 
 
 _POOL = []
+# nested tuples of 5+ items whose depth sits between "the sender cannot encode it" (deep_tuple, outcome `ed`) and "everybody
+# can": at Python's default recursion limit the sender's `dump` manages them (2 frames per level); a decoder that needs more
+# stack per level than the encoder does not, and the message is lost before its seq is known
+DEFAULT_RECURSION_LIMIT = 1000
+DEEP_WIDE = ((310, 5), (350, 5), (400, 5), (430, 6))
+
+
+def deep_wide(depth, width):
+    v = ()
+    for _ in range(depth):
+        v = tuple(range(width - 1)) + (v,)
+    return v
+
+
+def deep_wide_texts():
+    return [valtext.to_text(deep_wide(d, w)) for d, w in DEEP_WIDE]
+
+
+def is_deep_text(t):
+    return len(t) > 2000 and t.count("(") > 150
+
+
+def program_has_deep_value(program):
+    def walk(sc):
+        if len(sc) > 3 and isinstance(sc[3], str) and is_deep_text(sc[3]):
+            return True
+        return any(walk(sub) for _k, sub in sc[1])
+    return any(len(act) > 1 and isinstance(act[1], (list, tuple)) and len(act[1]) > 2 and act[0] in ("s", "a", "t") and walk(act[1])
+               for act in program)
 
 
 def value_pool():
     """texts (valtext notation) of the serializer's boundary values that can travel by value: c04's boundary corpus
     (lone and paired surrogates, NUL and astral text, ints at the immediate-window edges and just below the digit limit,
     NaN payloads, signed zeros, 255/256-long strings and tuples, nested frozensets and slices ...), minus what `dump`
-    refuses (that is the unencodable class) and minus the very large ones"""
+    refuses (that is the unencodable class) and minus the very large ones; plus the deep-and-wide tuples (DEEP_WIDE) that
+    the sender can encode at the default recursion limit"""
     if _POOL:
         return _POOL
     try:
@@ -177,12 +207,18 @@ def value_pool():
         if t not in seen:
             seen.add(t)
             _POOL.append(t)
+    for t in deep_wide_texts():
+        if t not in seen:
+            seen.add(t)
+            _POOL.append(t)
     return _POOL
 
 
 def gen_extra(r):
     if r.chance(3, 4):
-        return r.choice(value_pool())
+        # (the deep-and-wide tuples travel in the boundary programs only, at a known small stack depth: inside nested
+        # callbacks the SENDER's own stack may not suffice, which is the unencodable class, not this one)
+        return r.choice([t for t in value_pool() if not is_deep_text(t)])
     try:
         from props import c04
     except ImportError:
@@ -501,6 +537,19 @@ class Run(object):
                 return
 
     def execute(self):
+        # programs carrying a deep-and-wide tuple run at Python's DEFAULT recursion limit (run.py raises it for the
+        # harness's own recursions): that is where the encoder's and the decoder's stack needs can differ
+        if not program_has_deep_value(self.program):
+            return self._execute()
+        import sys
+        old = sys.getrecursionlimit()
+        sys.setrecursionlimit(DEFAULT_RECURSION_LIMIT)
+        try:
+            return self._execute()
+        finally:
+            sys.setrecursionlimit(old)
+
+    def _execute(self):
         net = self.net
         old_gc = gc.isenabled()
         gc.disable()
@@ -820,7 +869,13 @@ def boundary_programs():
         out.append([["a", [1, [], o]], ["a", [2, [], "v"]], ["w", 1], ["w", 0]])
     out.append([["a", [1, [["a", [2, [], "x"]], ["s", [3, [["a", [4, [], "r"]]], "v"]]], "ei"]], ["s", [5, [], "pi"]]])
     # every boundary value of the serializer as argument + result, and as argument + exception argument (also via a callback)
-    for i, t in enumerate(value_pool()):
+    for t in deep_wide_texts():
+        # argument + result, result only + exception argument only, asynchronous with an exception argument
+        out.append([["s", [1, [], "vv", t]]])
+        out.append([["s", [1, [], "vr", t]], ["a", [2, [], "xr", t]], ["w", 0]])
+        out.append([["a", [1, [], "xv", t]], ["s", [2, [], "v"]], ["w", 0]])
+    out.append([["s", [1, [["s", [2, [], "vv", deep_wide_texts()[0]]]], "xv", deep_wide_texts()[0]]]])
+    for i, t in enumerate(t for t in value_pool() if not is_deep_text(t)):
         out.append([["s", [1, [], "vv", t]]])
         if i % 2 == 0:
             out.append([["s", [1, [], "vr", t]], ["a", [2, [], "xr", t]], ["w", 0]])
@@ -1238,7 +1293,11 @@ def oracle(run):
         kind, payload = got[0]
         wire_kind = "R" if resp[(peer, e["seq"])][0] == consts.MSG_REPLY else "X"
         if kind != wire_kind:
-            return ("%s: the response frame was %s but the requester saw %s" % (who, wire_kind, kind), "C08:misrouted")
+            sig = "C08:misrouted"
+            if any("RecursionError" in n for n in run.notes):
+                sig = "C08:request-lost-receiver-cannot-decode"      # the response arrived; its receiver could not decode it
+            return ("%s: the response frame was %s but the requester saw %s%s" % (
+                who, wire_kind, kind, " (RecursionError at the receiver)" if sig != "C08:misrouted" else ""), sig)
         if e.get("cid") is not None and (peer, e["cid"]) in out_of:
             o, p, undec = out_of[(peer, e["cid"])]
             want = {"v": "R", "r": "R"}.get(o, "X")
